@@ -51,6 +51,8 @@ type BCase struct {
 	Validators     *consensus.Validators          `json:"validators,omitempty"`
 	Params         *consensus.Parameters          `json:"params,omitempty"`
 	StateParams    *genesis.Parameters            `json:"state_params,omitempty"` // nil: the state query fails
+	Chain          [][]byte                       `json:"chain,omitempty"`  // core-*: headers of the preloaded trusted light blocks, ascending
+	Height         int64                          `json:"height,omitempty"` // core-*: requested height
 	Honest         *BCase                         `json:"honest,omitempty"`       // the unaltered response (for the oracle)
 }
 
@@ -514,13 +516,15 @@ func runB(c BCase) (res bresult) {
 		} else {
 			res.verdict = bindVerdict(c.Kind, err)
 		}
+	case "core-results", "core-txresults", "core-stateroot":
+		q, out, accept = runCore(&res, c, lb, t, r)
 	default:
 		panic("unknown kind " + c.Kind)
 	}
 	if out == "" {
 		out = "(SrErr " + res.verdict + ")"
 	}
-	if c.Alter == "genuine" && !accept && c.Kind != "stateroot" {
+	if c.Alter == "genuine" && !accept && c.Kind != "stateroot" && c.Kind != "core-stateroot" {
 		fmt.Fprintln(os.Stderr, "honest rejected:", c.Kind, res.verdict)
 		bad("harness error: the honest response is rejected: " + res.verdict)
 	}
@@ -542,6 +546,8 @@ type tuple struct {
 	params      *consensus.Parameters
 	stateParams *genesis.Parameters
 	sigTxs      []*transaction.SignedTransaction
+	height      int64
+	root        []byte // state root carried by the block's metadata transaction
 }
 
 func mkValSet(r *prng.R, n int) *cmttypes.ValidatorSet {
@@ -567,7 +573,12 @@ func plainTx(r *prng.R) *transaction.SignedTransaction {
 
 func mkTuple(r *prng.R, idx int) *tuple {
 	heights := []int64{1, 2, 7, 25300000, 1<<31 + 5, 1<<63 - 2}
-	height := heights[idx%len(heights)]
+	return mkTupleAt(r, fmt.Sprintf("constructed-%d", idx), heights[idx%len(heights)], r.Bytes(32), r.Bytes(32))
+}
+
+// mkTupleAt builds a consistent tuple at the given height whose header carries
+// the given AppHash and LastResultsHash (those of the previous height).
+func mkTupleAt(r *prng.R, name string, height int64, appHash, lastResultsHash []byte) *tuple {
 	ntx := []int{1, 2, 3, 5, 8}[r.Intn(5)]
 	var root hash.Hash
 	copy(root[:], r.Bytes(32))
@@ -607,11 +618,14 @@ func mkTuple(r *prng.R, idx int) *tuple {
 	hdr := cmttypes.Header{
 		Version: cmtversion.Consensus{Block: 11, App: cp.Version.App}, ChainID: "verif-chain", Height: height, Time: ts,
 		LastBlockID: lastBlockID, LastCommitHash: commit.Hash(), DataHash: data.Hash(), ValidatorsHash: vals.Hash(),
-		NextValidatorsHash: nextVals.Hash(), ConsensusHash: cp.Hash(), AppHash: r.Bytes(32), LastResultsHash: r.Bytes(32),
+		NextValidatorsHash: nextVals.Hash(), ConsensusHash: cp.Hash(), AppHash: appHash, LastResultsHash: lastResultsHash,
 		EvidenceHash: (&cmttypes.EvidenceData{}).Hash(), ProposerAddress: vals.Validators[0].Address,
 	}
 	blk := &cmttypes.Block{Header: hdr, Data: data, LastCommit: commit}
-	cblk := must(cmtapi.NewBlock(blk))
+	var cblk *consensus.Block
+	if len(appHash) == 32 { // api.NewBlock panics on any other length
+		cblk = must(cmtapi.NewBlock(blk))
+	}
 
 	var txr []*abci.ResponseDeliverTx
 	for i := 0; i < ntx; i++ {
@@ -630,7 +644,7 @@ func mkTuple(r *prng.R, idx int) *tuple {
 	sp := &genesis.Parameters{TimeoutCommit: time.Second, MaxTxSize: 32768, MaxBlockSize: uint64(cp.Block.MaxBytes), MaxBlockGas: 1000, MaxEvidenceSize: 51200, MinGasPrice: uint64(r.Intn(5))}
 	pbp := cp.ToProto()
 	params := &consensus.Parameters{Height: height, Parameters: *sp, Meta: must(pbp.Marshal())}
-	return &tuple{name: fmt.Sprintf("constructed-%d", idx), header: must(hdr.ToProto().Marshal()), nextHeader: must(next.ToProto().Marshal()),
+	return &tuple{name: name, height: height, root: root[:], header: must(hdr.ToProto().Marshal()), nextHeader: must(next.ToProto().Marshal()),
 		block: cblk, txs: raw, results: results, resultsHash: resultsHash,
 		validators: must(light.EncodeValidators(nextVals, height+1)), params: params, stateParams: sp, sigTxs: sigTxs}
 }
@@ -1059,9 +1073,14 @@ func mainBind(seed uint64, rounds int, out, replay string) {
 			cases = append(cases, genBCases(r.Fork(), mkTuple(r.Fork(), i))...)
 			sum.Count("tuples", "constructed")
 		}
+		for i := 0; i < (rounds+1)/2; i++ {
+			cases = append(cases, genCoreCases(r.Fork(), i)...)
+			sum.Count("tuples", "chains")
+		}
 	}
 	seen := map[string]bool{}
 	freeSeen := map[string]bool{}
+	txResultsPanicSeen := false
 	for _, c := range cases {
 		res := runB(c)
 		key, _ := json.Marshal(c)
@@ -1089,6 +1108,15 @@ func mainBind(seed uint64, rounds int, out, replay string) {
 				if r2 := runB(small); r2.panicked != "" {
 					c, res = small, r2
 				}
+			}
+			if c.Kind == "core-txresults" && strings.Contains(res.panicked, "index out of range") && strings.Contains(res.panicked, "full/common.go") {
+				if !txResultsPanicSeen {
+					txResultsPanicSeen = true
+					sum.Findings = append(sum.Findings, coqout.Finding{Key: "C19:GetTransactionsWithResults-panics-on-more-results-than-transactions",
+						What: "Core.GetTransactionsWithResults does not reject but PANICS at the latest trusted height (where block results are not verified) when the provider returns more transaction results than the block has transactions: full.TransactionResultsFromCometBFT indexes txs[idx] by the result index: " + res.panicked,
+						Replay: map[string]any{"case": c}})
+				}
+				continue
 			}
 			sum.Violations = append(sum.Violations, map[string]any{"what": "implementation panicked: " + res.panicked, "case": c})
 			continue
